@@ -831,4 +831,44 @@ def Act.faultFree : Act → Bool
 def ReachableFF (cfg : Cfg) (sd : St × Disk) : Prop :=
   ∃ as, (∀ a ∈ as, a.faultFree) ∧ run cfg init as = some sd
 
+/-!
+# part 3: `leveldb.Recover` (`recoverTable` + `openDB`)
+
+`Recover` ignores `CURRENT` and every manifest.  It scans every table file (`recoverTable`: the good keys of
+the readable blocks; a table with damaged blocks is rewritten from them), puts all tables into level 0, writes
+a new manifest with `seqNum := max sequence number seen` and journal number 0, and then opens the DB: every
+journal is replayed, a record is applied iff its sequence number is not below `db.seq`.
+-/
+
+/-- what `Recover` finds: per table file the entries an iterator over the (possibly damaged) file yields, per
+    journal file its records -/
+structure RebuildIn where
+  tables : List (Nat × List Entry) := []
+  journals : List (Nat × List Grp) := []
+deriving Repr
+
+def maxSeqOf (es : List Entry) : Nat := es.foldl (fun m e => max m e.seq) 0
+
+structure Rebuilt where
+  tableEntries : List Entry
+  journalGrps : List Grp
+  seq : Nat
+deriving Repr
+
+/-- `recoverTable` followed by `openDB` (`recoverJournal` with `stJournalNum = 0`) -/
+def rebuild (inp : RebuildIn) : Rebuilt :=
+  let tes := inp.tables.flatMap (·.2)
+  let r := replayJ (maxSeqOf tes) (inp.journals.flatMap (·.2))
+  ⟨tes, r.1, r.2⟩
+
+def Rebuilt.entries (r : Rebuilt) : List Entry := r.tableEntries ++ r.journalGrps.flatMap Grp.ents
+
+def Rebuilt.get (c : UCmp) (r : Rebuilt) (k : Bytes) : Option Bytes := GoLevel.view c r.entries k r.seq
+
+/-- what `Recover` finds on a record-level disk: every table file (an unreadable one yields nothing), every
+    journal file -/
+def rebuildInOf (d : Disk) : RebuildIn :=
+  { tables := d.tables.map fun p => (p.1, if p.2.bad then [] else p.2.grps.flatMap Grp.ents)
+    journals := d.journals.map fun p => (p.1, p.2.all) }
+
 end GoLevel.Dur
